@@ -79,6 +79,8 @@ func main() {
 		os.Exit(cmdList(os.Args[2:]))
 	case "dump":
 		os.Exit(cmdDump(os.Args[2:]))
+	case "replay":
+		os.Exit(cmdReplay(os.Args[2:]))
 	}
 	fmt.Fprintln(os.Stderr, "unknown command")
 	os.Exit(2)
@@ -192,6 +194,7 @@ func cmdCheck(args []string) int {
 	repo := fs.String("repo", "/repo", "")
 	prop := fs.String("prop", "", "property id")
 	tier := fs.String("tier", "quick", "quick|thorough")
+	exact := fs.String("exact", "", "restrict to the obligation with exactly this name (used by replay)")
 	only := fs.String("only", "", "restrict to contracts containing this substring (debugging; no evidence written)")
 	verbose := fs.Bool("v", false, "")
 	nocache := fs.Bool("nocache", false, "")
@@ -242,7 +245,11 @@ func cmdCheck(args []string) int {
 			if !hasProp(o.Props, *prop) {
 				continue
 			}
-			work = append(work, &oblResult{Func: fr.Key, O: o, Ctx: fr.Ctx, Full: strings.TrimPrefix(fr.Key, "func:") + "/" + o.Name})
+			full := strings.TrimPrefix(fr.Key, "func:") + "/" + o.Name
+			if *exact != "" && full != *exact && !o.Cover {
+				continue
+			}
+			work = append(work, &oblResult{Func: fr.Key, O: o, Ctx: fr.Ctx, Full: full})
 		}
 	}
 	var wg sync.WaitGroup
@@ -389,15 +396,15 @@ func cmdCheck(args []string) int {
 		if *verbose || true {
 			fmt.Printf("NOT-DISCHARGED %s: %s (%s) %s\n", w.Full, w.R.Answer, w.R.Solver, w.O.Clause)
 		}
-		inBaseline := baseline == nil || baseline[w.Full]
-		if tainted && (!inBaseline || onlyMissingContracts(unsupportedFuncs[w.Func])) {
-			// a new dependency without a contract (or an obligation never claimed):
-			// undecided, not an alarm
-			undecided = append(undecided, w.Full+" (function uses a construct or callee outside the contracted subset)")
-			continue
-		}
-		if !inBaseline && w.R.Answer != "sat" {
-			undecided = append(undecided, w.Full+" ("+w.R.Answer+")")
+		// baseline/<prop>.obligations lists what discharged on the unchanged
+		// tree. An obligation on that list that no longer discharges is a
+		// violation whatever the reason (the proof that was there is gone).
+		// An obligation not on the list (a new call site, a new function)
+		// that fails only because its function calls something without a
+		// contract is undecided: a new dependency is not a broken property.
+		listed := baseline != nil && baseline[w.Full]
+		if tainted && !listed && onlyMissingContracts(unsupportedFuncs[w.Func]) {
+			undecided = append(undecided, w.Full+" (function calls something without a contract)")
 			continue
 		}
 		// violation
@@ -419,6 +426,15 @@ func cmdCheck(args []string) int {
 				if confirmed := tryReplay(*prop, w, m, rep); confirmed {
 					suffix = ""
 				}
+			}
+		}
+		if f, confirmed, out := registeredReplay(*repo, w.Full); f != "" {
+			rep["registered_replay"] = f
+			rep["registered_replay_output"] = truncate(out, 6000)
+			if confirmed {
+				// the committed test of the real code fails on this tree
+				suffix = ""
+				rep["go_test"] = json.RawMessage(goTestOf(f))
 			}
 		}
 		b, _ := json.MarshalIndent(rep, "", " ")
@@ -507,6 +523,19 @@ func cmdCheck(args []string) int {
 		// undecided obligations that were never claimed do not raise an alarm
 	}
 	return exit
+}
+
+// goTestOf returns the go_test object of a committed replay file.
+func goTestOf(file string) []byte {
+	b, err := os.ReadFile(file)
+	if err != nil {
+		return []byte("null")
+	}
+	var m map[string]json.RawMessage
+	if json.Unmarshal(b, &m) != nil || m["go_test"] == nil {
+		return []byte("null")
+	}
+	return m["go_test"]
 }
 
 func sanitizeFile(s string) string {
